@@ -74,6 +74,9 @@ deriving DecidableEq, Repr, Inhabited
 def Passed.fromString (tok : String) : Passed :=
   .str (String.ofList ((tok.toList.dropLast).drop 1))
 
+/-- `PassedArgumentType::from_string_token`: the token's `literal`, whatever the quotes are -/
+def Passed.fromStringToken (_q : Quote) (content : String) : Passed := .str content
+
 def ArgType.isConstant : ArgType → Bool
   | .constant _ => true
   | _ => false
@@ -147,7 +150,7 @@ def getArgType : Expr → Option Passed
   | .function => some (.prim .function)
   | .call => none
   | .number _ => some (.prim .number)
-  | .str q c => some (Passed.fromString (tokenText q c))
+  | .str q c => some (Passed.fromStringToken q c)
   | .falseLit => some (.prim .bool)
   | .trueLit => some (.prim .bool)
   | .nilLit => some (.prim .nil)
@@ -173,7 +176,7 @@ deriving DecidableEq, Repr, Inhabited
 /-- `argument_types` (ranges dropped: an argument is identified by its position) -/
 def CallArgs.types : CallArgs → List (Option Passed)
   | .parens as => as.map getArgType
-  | .string q c => [some (Passed.fromString (tokenText q c))]
+  | .string q c => [some (Passed.fromStringToken q c)]
   | .table => [some (.prim .table)]
 
 /-- top-level `Expression::FunctionCall` or the `...` symbol -/
